@@ -174,6 +174,9 @@ LEAPOCH = 730_179          # 2000-03-01, checked against the constant in days_to
 CYCLE = 146_097
 
 
+CLASS_BUDGET_S = 900          # per residue class; generous: the machine may be heavily loaded
+
+
 def march_years():
     """the 400 March-based years of one cycle starting 2000-03-01: (c, q, r1, start offset, length)"""
     out = []
@@ -203,6 +206,7 @@ def _inverse_worker(job):
     I.return_partition[D2D] = lambda I_, st, v: id(st)
     I.return_partition[DTD] = lambda I_, st, v: id(st)
     problems = []
+    infra = []
     npaths = 0
     for (c, q, r1, S, ln, mode, tlo, thi) in chunk:
         st = St()
@@ -231,7 +235,7 @@ def _inverse_worker(job):
         def _alarm(signum, frame):
             raise TimeoutError('time budget of one class exceeded')
         signal.signal(signal.SIGALRM, _alarm)
-        signal.alarm(20)
+        signal.alarm(CLASS_BUDGET_S)
         try:
             outs = I.call_body(st, D2D, [n], ('entry', D2D))
             pairs = []
@@ -242,6 +246,11 @@ def _inverse_worker(job):
                 y, m, d = v[1]
                 for s2, rv in I.call_body(s, DTD, [y, m, d], ('entry', DTD)):
                     pairs.append((s2, rv, m, d))
+        except TimeoutError as e:
+            signal.alarm(0)
+            infra.append(f'{name}: {e}')            # a slow machine is not a property violation: reported as an infrastructure failure
+            I.stack = []
+            continue
         except Exception as e:      # noqa
             signal.alarm(0)
             problems.append((name, f'analysis failed: {e}'))
@@ -258,7 +267,7 @@ def _inverse_worker(job):
                     continue
                 if not D.aff_equiv(D.aff_of(rv[2][0][0][1]), D.aff_of(n[1]), st=s2):
                     problems.append((name, f'date_to_days(days_to_date(n)) = {D.aff_of(rv[2][0][0][1])}, n = {D.aff_of(n[1])} (month {D.get_iv(s2, m[1])})'))
-    return problems, npaths, len(chunk)
+    return problems, npaths, len(chunk), infra
 
 
 def check_inverse(ctx, Numeric):
@@ -301,6 +310,10 @@ def check_inverse(ctx, Numeric):
     problems = [p for r in res for p in r[0]]
     npaths = sum(r[1] for r in res)
     nclasses = sum(r[2] for r in res)
+    slow = [x for r in res for x in r[3]]
+    if slow:
+        from .facts import InfraError
+        raise InfraError(f'C01-I: {len(slow)} class(es) exceeded the time budget of {CLASS_BUDGET_S} s (a class normally takes a fraction of a second): ' + '; '.join(slow[:3]))
     span = None
     ctx.rule('C01-I the classes cover every i32 day number exactly once', 1, 1 if full else 0)
     if not full:
